@@ -159,15 +159,17 @@ type world struct {
 	idleSkipped, idleRounds     int
 	shutDone                    chan struct{}
 
-	trigCount      atomic.Int64
-	firstTrigAtEnq atomic.Int64 // enqReturned when the first trigger was sent (-1: none sent)
-	flipActions    atomic.Int64
-	twinBlocks     atomic.Int64
-	tracerObs      []addTracerObs
-	tracerObsMu    sync.Mutex
-	pendingAtShut  int64
-	notes          []string
-	stuckAfterShut bool
+	trigCount         atomic.Int64
+	firstTrigAtEnq    atomic.Int64 // enqReturned when the first trigger was sent (-1: none sent)
+	flipActions       atomic.Int64
+	twinBlocks        atomic.Int64
+	submitsAfterPlain atomic.Int64
+	globalOnlyChanges int
+	tracerObs         []addTracerObs
+	tracerObsMu       sync.Mutex
+	pendingAtShut     int64
+	notes             []string
+	stuckAfterShut    bool
 }
 
 func (w *world) tick() uint64 { return w.clock.Add(1) }
@@ -650,10 +652,29 @@ func (p *producer) tracerBlock(phase int) int {
 		}
 		trace = append(trace, trLine{0, fin.site, fin.text})
 	}
+	// plain lines of the same goroutine between its last tracer line and Submit
+	// (tracer-unaware helper code): they were logged before the submission, so they
+	// arrive before it -- although the submission carries the older timestamp of its
+	// last collected line
+	between := 0
+	if r.Chance(1, 2) {
+		for i, n := 0, r.Range(1, 3); i < n && !w.shouldStop(); i++ {
+			s := p.randSite(true)
+			if r.Chance(2, 3) {
+				s = siteID(sitePkg(s), siteVariant(s), r.Range(4, nLevels)) // mostly enabled
+			}
+			p.logLine(phase, s, fmt.Sprintf("%sb#%d", strings.Replace(tid, "T", "B", 1), i), w.certainlyEnabled(phase, sitePkg(s), siteLvl(s)))
+			between++
+		}
+	}
 	rec := lineRec{Phase: phase, Kind: kSubmit, Site: -1, Trace: trace}
 	if len(trace) > 0 {
 		rec.Site, rec.Text = trace[len(trace)-1].Site, trace[len(trace)-1].Text
 	}
+	if between > 0 && len(trace) > 0 {
+		w.submitsAfterPlain.Add(1)
+	}
+	nl += between
 	if w.shouldStop() {
 		return nl + 1
 	}
@@ -753,6 +774,13 @@ func copyMap(m map[string]int) map[string]log.Severity {
 }
 
 func (w *world) applyCfg(c levelCfg) {
+	if c.KeepPkg {
+		// only the global level changes; the per-package levels set in the previous
+		// phase stay as they are (no SetPkgLevels call)
+		log.SetLogLevel(log.Severity(c.Global))
+		w.globalOnlyChanges++
+		return
+	}
 	log.SetLogLevel(log.Severity(c.Global))
 	if c.Active {
 		log.SetPkgLevels(copyMap(c.Pkg))
